@@ -488,6 +488,23 @@ MayOverflow(x, d) ==
 KB_CompressFloat(A, hasFP, d) ==
   A.t \in FloatTypes /\ hasFP /\ \E i \in DOMAIN A.v : ~IsFinite(A.v[i]) \/ MayOverflow(A.v[i], d)
 
+(* ================================================================== compress(): the level it is called at *)
+(* compress(x, float_tolerance) accepts a BinaryCIFData, a BinaryCIFColumn, a BinaryCIFCategory, a BinaryCIFBlock or a
+   BinaryCIFFile.  Specification: the tolerance clause holds for the tolerance that was PASSED, at every level -
+   compressing a container is compressing every data array in it with that tolerance (masks included; integer and
+   string arrays come back exactly).  Code shape (compress.py): _compress_file -> _compress_block ->
+   _compress_category -> _compress_column -> _compress_data, each handing its float_tolerance argument on; Pass is
+   that hand-over, TolArriving the tolerance _compress_data finally works with.  MCCompress checks
+   TolArriving(level, T) = T for every level; the driver executes every case at every level. *)
+Levels == {"data", "column", "category", "block", "file"}
+LevelPath(level) == CASE level = "file" -> <<"file", "block", "category", "column">>
+                      [] level = "block" -> <<"block", "category", "column">>
+                      [] level = "category" -> <<"category", "column">>
+                      [] level = "column" -> <<"column">>
+                      [] OTHER -> <<>>
+Pass(lv, T) == T                     \* `_compress_<next level>(child, float_tolerance)`
+TolArriving(level, T) == FoldLeft(LAMBDA t, lv : Pass(lv, t), T, LevelPath(level))
+
 (* ================================================================== compress(): floats of any magnitude *)
 (* The fixed-point universe above (20 fractional bits, |x| < 2^31) cannot express what the float
    branch of compress() is about: the NUMBER OF DECIMALS it chooses from the data (any sign, up to
@@ -606,8 +623,13 @@ Dom_SciElem(t, x) ==
     [] OTHER -> x.k \in {"nan", "pinf", "ninf"} /\ x.m = 0 /\ x.p = 0
 Dom_SciArray(A) == A.t \in FloatTypes /\ A.v # <<>> /\ \A i \in DOMAIN A.v : Dom_SciElem(A.t, A.v[i])
 \* tolerances 1/T well above the float noise
-Dom_SciTol(t, T) == 2 <= T /\ T <= (IF t = 32 THEN 10000 ELSE 1000000)
+\* (float64: up to 10^8, i.e. stricter than the default tolerance 1e-6 of compress(); one unit of the nine-digit mantissa
+\* is 1e-9 relative, so |x| / T is still at least one unit and the slack of two units does not swallow the tolerance;
+\* float32 resolves 6e-8: nothing stricter than 1e-4 is decidable with the noise margins of PassK / MayK)
+Dom_SciTol(t, T) == 2 <= T /\ T <= (IF t = 32 THEN 10000 ELSE 100000000)
+\* tolerances stricter than 1e-6 only on values for which tol * |x| is a normal number with full precision
+Dom_SciDeepTol(A, T) == T > 1000000 => \A i \in DOMAIN A.v : IsNZ(A.v[i]) => 8 + A.v[i].p >= -290
 \* float arithmetic decides every comparison of the search the way decimal arithmetic does
 Dom_SciDecisive(A, T) == SciTrivial(A) \/ SciExhausted(A, T) \/ (SciTerm(A, T) /\ SciNeed(A, T) = SciMay(A, T))
-Dom_Sci(A, T) == Dom_SciArray(A) /\ Dom_SciTol(A.t, T) /\ Dom_SciDecisive(A, T)
+Dom_Sci(A, T) == Dom_SciArray(A) /\ Dom_SciTol(A.t, T) /\ Dom_SciDeepTol(A, T) /\ Dom_SciDecisive(A, T)
 =============================================================================
